@@ -61,8 +61,10 @@ def generate(ck):
     for i in range(n):
         k = i % 8
         if k in (0, 1, 2):
-            d = sim.random_sim_desc(rng, ck.tier, nx_choices=(3, 10, 30), families=("uniform", "quadratic", "geometric", "sorted-random"), schedules=False)
+            d = sim.random_sim_desc(rng, ck.tier, nx_choices=(3, 10, 30), families=("uniform", "quadratic", "geometric", "sorted-random"), schedules=True)
             d["grid"]["nt"] = int(rng.choice([2, 7, 40, 150]))
+            if d.get("schedule") is not None:
+                d["schedule"]["kind"] = "random-walk"  # frac-face pressure that also rises: rows whose minimum is not at the fracture
             if d["grid"]["family"] == "geometric":
                 d["grid"]["nt"] = max(3, d["grid"]["nt"])
             d.update({"kind": "profiles", "every": int(rng.integers(1, d["grid"]["nt"] + 4)), "rescale": bool(rng.random() < 0.5)})
